@@ -464,6 +464,46 @@ def raw_constructions(trees: dict[str, ast.Module]) -> list[tuple[str, str, str]
     return out
 
 
+def flag_stores(trees: dict[str, ast.Module]) -> list[tuple[str, str, str]]:
+    """Stores into an attribute called `constrain_path` anywhere in the package other than the one assignment in
+    RawFileSystem.__init__ (the theorems take the flag of an object as fixed): `fs.constrain_path = False`, setattr, __dict__."""
+    out = []
+    for rel, tree in trees.items():
+        init = None
+        if rel == 'filesys.py':
+            raw = next((n for n in tree.body if isinstance(n, ast.ClassDef) and n.name == 'RawFileSystem'), None)
+            init = next((f for f in (raw.body if raw else []) if isinstance(f, ast.FunctionDef) and f.name == '__init__'), None)
+        inside_init = {id(x) for x in ast.walk(init)} if init is not None else set()
+        for node in _walk(tree):
+            if isinstance(node, ast.Attribute) and node.attr == 'constrain_path' and isinstance(node.ctx, (ast.Store, ast.Del)) \
+                    and id(node) not in inside_init:
+                out.append((rel, 'constrain_path', f'line {node.lineno}: the flag of an object is assigned outside the constructor'))
+            if isinstance(node, ast.Call) and (_dotted(node.func) or '').split('.')[-1] in ('setattr', '__setattr__', 'delattr') \
+                    and any(isinstance(a, ast.Constant) and a.value == 'constrain_path' for a in node.args):
+                out.append((rel, 'constrain_path', f'line {node.lineno}: the flag is set by name: {ast.unparse(node)[:50]}'))
+            if isinstance(node, ast.Subscript) and isinstance(node.ctx, (ast.Store, ast.Del)) \
+                    and isinstance(node.slice, ast.Constant) and node.slice.value == 'constrain_path':
+                out.append((rel, 'constrain_path', f'line {node.lineno}: the flag is written through a dictionary'))
+    return out
+
+
+def unexpected_bases(tree: ast.Module) -> list[tuple[str, str, str]]:
+    """Base classes / metaclasses of the four classes other than Generic[...], FileSystem[...], ValueError-free: a mixin or
+    metaclass (from any module) can add attribute hooks, caches and class-level state the censuses of the class bodies do
+    not see."""
+    out = []
+    for cls in (n for n in tree.body if isinstance(n, ast.ClassDef) and n.name in FS_CLASSES):
+        for b in cls.bases:
+            d = _dotted(b.value if isinstance(b, ast.Subscript) else b)
+            if d not in ('Generic', 'typing.Generic', 'FileSystem', 'object'):
+                out.append((cls.name, d or ast.unparse(b)[:30], 'base class other than Generic[...] / FileSystem[...]'))
+        for k in cls.keywords:
+            out.append((cls.name, k.arg or '**', f'class keyword: {ast.unparse(k.value)[:40]}'))
+        for dec in cls.decorator_list:
+            out.append((cls.name, ast.unparse(dec)[:40], 'class decorator'))
+    return out
+
+
 def _triples(name: str, rows, comment: str) -> list[str]:
     return [f'(* {comment} *)', f'Definition {name} : list (string * string * string) := [',
             ';\n'.join(f'  ("{_coq_ident(a)}", "{_coq_ident(b)}", "{_coq_ident(c)}")' for a, b, c in rows), '].']
@@ -477,7 +517,7 @@ def translate() -> tuple[str, dict]:
     skipped = 0
     # a file can only matter if it names the module / the classes, or stores into an attribute of the path library
     # (cheap test on the text that only decides which files are parsed; everything reported comes from the syntax trees)
-    relevant = re.compile(r'filesys|FileSystem|RootEscapeError|setattr|delattr|__dict__|\bpatch\b|'
+    relevant = re.compile(r'filesys|FileSystem|RootEscapeError|constrain_path|setattr|delattr|__dict__|\bpatch\b|'
                           r'\b(?:os|posixpath|builtins|io|genericpath)\s*(?:\.\s*\w+)+\s*(?:[-+*/|&^%@]|//|<<|>>)?=(?!=)|'
                           r'\bdel\s+(?:os|posixpath|builtins|io)\b')
     always = {'filesys.py'}
@@ -517,11 +557,14 @@ def translate() -> tuple[str, dict]:
         if names or mods:
             mentioning.append(rel)
     constructions = raw_constructions(trees)
+    patches = patches + flag_stores(trees)
+    bases = unexpected_bases(fs)
     lines = ['(* GENERATED by translate/c18_census.py from every *.py below /repo/src/srctools. Do not edit. *)',
              'From Coq Require Import NArith List String.', 'From SV Require Import SM.PathNorm SM.PathOps.',
              'Import ListNotations.', 'Open Scope string_scope.']
     lines += _triples('foreign_patches', patches, 'monkey-patch style statements on the file-system classes / the library functions under the guard, anywhere in the package')
     lines += _triples('foreign_subclasses', subs, 'subclasses of RawFileSystem (any module) redefining one of its methods or attributes')
+    lines += _triples('unexpected_bases', bases, 'base classes, metaclasses and class decorators of the four classes')
     lines += _triples('decorator_origins', decs, 'decorators taken as neutral whose binding in filesys.py is not the library one')
     lines += _triples('reachable_foreign_caches', reach, 'cached functions of other modules reached from the methods of the four classes')
     lines += _triples('per_object_state', state, 'containers / outside state kept on File, FileSystem, RawFileSystem objects')
@@ -533,7 +576,7 @@ def translate() -> tuple[str, dict]:
               'Definition entry_points : list ccall := [',
               ';\n'.join(f'  {{| cc_method := "{m if c == 'FileSystem' else c + '.' + m}"; cc_member := "{mm}"; cc_arg := {p} |}}' for c, m, mm, p in entries), '].', '']
     side = {'files_read': len(trees), 'files_without_any_mention': skipped, 'foreign_patches': [list(x) for x in patches], 'foreign_subclasses': [list(x) for x in subs],
-            'decorator_origins': [list(x) for x in decs], 'reachable_foreign_caches': [list(x) for x in reach],
+            'decorator_origins': [list(x) for x in decs], 'unexpected_bases': [list(x) for x in bases], 'reachable_foreign_caches': [list(x) for x in reach],
             'foreign_functions_followed': followed, 'per_object_state': [list(x) for x in state],
             'object_attributes': attrs, 'constructor_signature_ok': sig_ok,
             'entry_points': [list(x) for x in entries], 'entry_unread': [list(x) for x in unread],
